@@ -759,8 +759,15 @@ namespace occa {
                         : NULL);
 
       // Don't allow for recursive expansion
+      // An identifier that was not expanded because its macro was being
+      //   expanded stays unexpanded when it is scanned again
+      //   (for example as part of a macro argument)
+      if (macro
+          && (expandedMacros.find(macro) != expandedMacros.end())) {
+        token.canExpand = false;
+      }
       if (!macro
-          || (expandedMacros.find(macro) != expandedMacros.end())) {
+          || !token.canExpand) {
         pushOutput(&token);
         return;
       }
